@@ -129,6 +129,11 @@ def show_enc(x):
 
 
 def show(p, limit=400):
+    if isinstance(p, (tuple, list)):
+        s = "(" + ", ".join(show(x, limit) for x in p) + ")"
+        return s if len(s) <= limit else s[:limit] + "..."
+    if not isinstance(p, Poly):
+        return repr(p)[:limit]
     if not p.t:
         return "0"
     out = []
